@@ -768,14 +768,36 @@ def has_side_effect(node: ast.AST, safe_callable_whitelist: Collection[str] = fr
     return True
 
 
+def _split_lines(source: str) -> Sequence[str]:
+    """Split source into lines the same way the python tokenizer does.
+
+    Unlike str.splitlines(), form feeds and unicode line separators do not end a line.
+    """
+    return re.findall(r"[^\r\n]*(?:\r\n|\r|\n)|[^\r\n]+\Z", source)
+
+
 @functools.lru_cache(maxsize=100)
 def _get_line_start_charnos(source: str) -> Sequence[int]:
     start = 0
     charnos = []
-    for line in source.splitlines(keepends=True):
+    for line in _split_lines(source):
         charnos.append(start)
         start += len(line)
     return tuple(charnos)
+
+
+@functools.lru_cache(maxsize=100)
+def _get_lines(source: str) -> Sequence[str]:
+    return tuple(_split_lines(source))
+
+
+def _col_offset_to_chars(source: str, lineno: int, col_offset: int) -> int:
+    """Convert an ast col_offset, which counts utf-8 bytes, to a number of characters."""
+    lines = _get_lines(source)
+    if not 1 <= lineno <= len(lines) or lines[lineno - 1].isascii():
+        return col_offset
+
+    return len(lines[lineno - 1].encode("utf-8")[:col_offset].decode("utf-8", errors="ignore"))
 
 
 class Range(NamedTuple):
@@ -872,11 +894,15 @@ def get_charnos(node: ast.AST, source: str, keep_first_indent: bool = False) -> 
         # Insertion after the last line of the source
         return Range(len(source), len(source))
 
-    start_charno = line_start_charnos[start_position.lineno - 1] + start_position.col_offset
+    start_charno = line_start_charnos[start_position.lineno - 1] + _col_offset_to_chars(
+        source, start_position.lineno, start_position.col_offset
+    )
     if getattr(node, "end_lineno", None) is None:
         return Range(start_charno, start_charno)
 
-    end_charno = line_start_charnos[node_position.end_lineno - 1] + node_position.end_col_offset
+    end_charno = line_start_charnos[node_position.end_lineno - 1] + _col_offset_to_chars(
+        source, node_position.end_lineno, node_position.end_col_offset
+    )
 
     code = source[start_charno:end_charno]
     if code and code[0] == " ":
